@@ -13,6 +13,42 @@ PROPS = {
         "level": "proof",
         "explanation": "rechunk planner helpers proved; plan-level clauses bounded",
     },
+    "C27": {
+        "level": "proof",
+        "explanation": "transfer estimates: range and ordering obligations from the real loops",
+    },
+    "C17": {
+        "level": "proof",
+        "explanation": "chunk unification helpers",
+    },
+    "C03": {
+        "level": "proof",
+        "explanation": "advertised chunks: chunk formulas proved against the block plans; materialisation bridge by record abstraction",
+    },
+    "C04": {
+        "level": "proof",
+        "explanation": "keys and names: materialisation pins the name on every path; key grids bounded",
+    },
+    "C20": {
+        "level": "proof",
+        "explanation": "layout barrier (ChunksFreeze.lower_once) by record abstraction; block_info payload bounded",
+    },
+    "C24": {
+        "level": "proof",
+        "explanation": "source reads: region composition and sliced chunk sizes proved; request bounds on recording sources bounded",
+    },
+    "C25": {
+        "level": "exploration",
+        "explanation": "store: region/block index composition (fuse_slice) proved under C13; end-to-end writes bounded over the catalogue",
+    },
+    "C28": {
+        "level": "exploration",
+        "explanation": "unknown chunk sizes: compute_chunk_sizes bounded over the catalogue",
+    },
+    "C29": {
+        "level": "exploration",
+        "explanation": "no data access at build/inspect time: recording sources over the catalogue",
+    },
     "C12": {
         "level": "proof",
         "explanation": "indexing: normalisation, bounds refusal, per-block slice plan, chunk sizes",
